@@ -23,7 +23,7 @@ import (
 
 const (
 	nAuth    = 2   // EIP-7702 authorities (never transaction senders)
-	nScen    = 10  // hand-built scenarios, selected by seeds < scenSeeds
+	nScen    = 14  // hand-built scenarios, selected by seeds < scenSeeds
 	scenSeeds = 1000
 )
 
@@ -103,6 +103,10 @@ type txgen struct {
 	created   []common.Address
 	hot       int
 	count     int
+	// scenario pins: a fixed authority / delegation target / account looked at by readers
+	pinAuth   int
+	pinTarget *common.Address
+	pinAcct   *common.Address
 }
 
 func (t *txgen) sender() int { return t.r.Intn(t.hot) }
@@ -122,6 +126,9 @@ func addrWord(a common.Address) []byte { return common.LeftPadBytes(a[:], 32) }
 // anyAccount picks an account whose balance / code a reader contract may look at
 func (t *txgen) anyAccount() common.Address {
 	r := t.r
+	if t.pinAcct != nil {
+		return *t.pinAcct
+	}
 	switch r.Intn(9) {
 	case 0:
 		return coinbase
@@ -191,8 +198,17 @@ func (t *txgen) emit(kind int) {
 		t.tags["nonce-only:create2"] = true
 	case kSetCode: // 7702: authority (not the sender) delegates, re-delegates or clears
 		ai := r.Intn(nAuth)
+		if t.pinAuth >= 0 {
+			ai = t.pinAuth
+		}
 		var target common.Address
-		switch r.Intn(5) {
+		pick := r.Intn(5)
+		if t.pinTarget != nil {
+			pick = 5
+			target = *t.pinTarget
+		}
+		switch pick {
+		case 5:
 		case 0:
 			target = common.Address{} // clear
 			t.tags["7702-clear"] = true
@@ -203,7 +219,7 @@ func (t *txgen) emit(kind int) {
 		}
 		nonce := t.authNonce[ai]
 		valid := true
-		if r.Chance(1, 8) {
+		if t.pinTarget == nil && r.Chance(1, 8) {
 			nonce += uint64(r.Range(1, 2)) // stale / future authorization: skipped by the EVM
 			valid = false
 			t.tags["7702-bad-nonce"] = true
@@ -231,6 +247,9 @@ func (t *txgen) emit(kind int) {
 		t.tags["7702-setcode"] = true
 	case kCallAuth: // runs the delegated code (adder/copier calldata) in the authority's storage
 		a := auths[r.Intn(nAuth)]
+		if t.pinAuth >= 0 {
+			a = auths[t.pinAuth]
+		}
 		t.send(t.sender(), &a, zero, 600_000, append(word(slot()), word(uint64(r.Range(1, 3)))...))
 		t.tags["call-authority"] = true
 	case kPurseFund:
@@ -335,9 +354,23 @@ func scenario(t *txgen, id int, variant int) {
 		ks = []int{kNfac, kFactorySD, kNfac, kCreateV1, kFactorySD}
 	case 9: // 7702 only (two authorities, clear and re-delegate)
 		ks = []int{kSetCode, kSetCode, kSetCode, kCallAuth, kSetCode, kCallAuth}
+	case 10: // authority with nonce+code changes only: delegate, read its code hash,
+		// re-delegate to the same target (a nonce-only change at that index), read again
+		t.pinAuth, t.pinTarget, t.pinAcct = variant%nAuth, &copier, &auths[variant%nAuth]
+		ks = []int{kSetCode, kHashrd, kSetCode, kHashrd, kSetCode, kBalrd}
+	case 12: // empty block: system-call phases only
+	case 13: // a single transaction
+		ks = []int{kAdder}
+	case 11: // balance-only contract read by balance readers between fundings
+		t.pinAcct = &purse
+		ks = []int{kPurseFund, kBalrd, kPurseFwd, kBalrd, kPurseFund, kPurseFwd}
 	}
 	for _, k := range ks {
 		t.emit(k)
+	}
+	t.tags[fmt.Sprintf("scenario-%d", id)] = true
+	if id >= 12 {
+		return
 	}
 	for i := 0; i < variant%3; i++ {
 		t.emit(t.r.Intn(nKinds))
@@ -346,7 +379,7 @@ func scenario(t *txgen, id int, variant int) {
 }
 
 func fillBlock(seed uint64, r *Rng, g *core.BlockGen, tags map[string]bool) {
-	t := &txgen{r: r, g: g, tags: tags}
+	t := &txgen{r: r, g: g, tags: tags, pinAuth: -1}
 	t.hot = r.Range(1, nEOA)
 	if seed < scenSeeds {
 		t.hot = nEOA
